@@ -63,6 +63,7 @@ void COSyncAdd (CO_SYNC *sync, uint16_t num, uint8_t msgType, uint8_t txtype)
         if (sync->RPdo[num] == 0) {
             sync->RPdo[num] = &sync->Node->RPdo[num];
         }
+        sync->RFrm[num].Identifier = 0;           /* no frame received */
     }
 }
 
@@ -87,11 +88,14 @@ void COSyncRx(CO_SYNC *sync, CO_IF_FRM *frm)
     int16_t n;
 
     for (i = 0; i < CO_RPDO_N; i++) {
-        if (sync->RPdo[i]->Identifier == frm->Identifier) {
+        if ((sync->RPdo[i] != 0) &&
+            (sync->RPdo[i]->Identifier == frm->Identifier)) {
             for (n=0; n < 8; n++) {
                 sync->RFrm[i].Data[n] = frm->Data[n];
             }
             sync->RFrm[i].DLC = frm->DLC;
+            /* mark frame as received (waiting for next SYNC) */
+            sync->RFrm[i].Identifier = frm->Identifier;
             break;
         }
     }
@@ -141,8 +145,13 @@ void COSyncHandler (CO_SYNC *sync)
         }
     }
 
+    if ((sync->Node->Nmt.Allowed & CO_PDO_ALLOWED) == 0) {
+        return;
+    }
     for (i = 0; i < CO_RPDO_N; i++) {
-        if (sync->RPdo[i] != 0) {
+        /* write a received frame once, with the first SYNC after it */
+        if ((sync->RPdo[i] != 0) && (sync->RFrm[i].Identifier != 0)) {
+            sync->RFrm[i].Identifier = 0;
             CORPdoWrite(sync->RPdo[i], &sync->RFrm[i]);
             COPdoSyncUpdate(sync->RPdo[i]);
         }
